@@ -33,6 +33,9 @@ SPECS = [
     ("L0_STOP_WRITES_TRIGGER", "src/config.rs", r"const L0_STOP_WRITES_TRIGGER: usize = ([^;]+);"),
     ("MAX_MEM_COMPACT_LEVEL", "src/config.rs", r"const MAX_MEM_COMPACT_LEVEL: usize = ([^;]+);"),
     ("BLOCK_DESCRIPTOR_SIZE_BYTES", "src/tables/constants.rs", r"const BLOCK_DESCRIPTOR_SIZE_BYTES: usize = ([^;]+);"),
+    ("MAX_GROUP_COMMIT_SIZE_BYTES", "src/config.rs", r"const MAX_GROUP_COMMIT_SIZE_BYTES: usize = ([^;]+);"),
+    ("GROUP_COMMIT_SMALL_WRITE_THRESHOLD_BYTES", "src/config.rs", r"const GROUP_COMMIT_SMALL_WRITE_THRESHOLD_BYTES: usize = ([^;]+);"),
+    ("SMALL_WRITE_ADDITIONAL_GROUP_COMMIT_SIZE_BYTES", "src/config.rs", r"const SMALL_WRITE_ADDITIONAL_GROUP_COMMIT_SIZE_BYTES: usize = ([^;]+);"),
     # compaction scoring (`Version::finalize`, `Version::max_bytes_for_level`); float literals `10.` are integers here
     ("SCORED_LEVELS", "src/versioning/version.rs", r"fn finalize\(&mut self\) \{.*?for level in 0\.\.([^{]+?)\{"),
     ("STARTING_MULTIPLE_BYTES", "src/versioning/version.rs", r"let starting_multiple_bytes: f64 = ([^;]+);"),
